@@ -214,7 +214,44 @@ pub fn mutate_ast(p: &mut Program, rng: &mut Rng) -> String {
     let module = if r.0 { p.decls[r.1].module } else { r.1 };
     let decl = if r.0 { Some(r.1) } else { None };
     let size = root_ref(p, r).size();
-    match rng.below(10) {
+    match rng.below(11) {
+        10 => {
+            // a postfix mark directly on an application argument (printed without parentheses for mutants)
+            let mut apps = Vec::new();
+            let mut k = 0;
+            root_ref(p, r).visit(&mut |x| {
+                if matches!(x, E::App { .. }) {
+                    apps.push(k);
+                }
+                k += 1;
+            });
+            if apps.is_empty() {
+                return "none".into();
+            }
+            let mut n = *rng.pick(&apps);
+            let required = rng.chance(1, 2);
+            let as_prop = rng.chance(1, 2);
+            if let Some(E::App { args, .. }) = nth_mut(root_mut(p, r), &mut n) {
+                if !args.is_empty() {
+                    let i = rng.below(args.len());
+                    let inner = std::mem::replace(&mut args[i], E::Obj(vec![]));
+                    let inner = if as_prop {
+                        E::Paren(Box::new(E::Prop {
+                            name: "um".into(),
+                            mark: None,
+                            rhs: Box::new(inner),
+                        }))
+                    } else {
+                        inner
+                    };
+                    args[i] = E::Unary {
+                        e: Box::new(inner),
+                        required,
+                    };
+                }
+            }
+            "postfix-mark-on-argument".into()
+        }
         0..=3 => {
             // replace a subterm by a snippet of arbitrary kind
             let s = snippets(rng);
